@@ -58,6 +58,36 @@ pub fn programs(tier: Tier) -> ProgramSet {
         let aux = overlap_aux(&e.spec);
         out.push(Program { idx: 0, label: e.label, k: e.k, spec: e.spec, aux, source });
     }
+    // combined deviations that a k-bounded search reaches late
+    {
+        // enum-level flag + a later spelling that equals an earlier one ignoring case (the earlier, insensitive one wins)
+        let mut s1 = EnumSpec::base(3);
+        s1.aci = true;
+        s1.variants[0].serialize = vec!["XY".into()];
+        s1.variants[2].serialize = vec!["Xy".into()];
+        s1.variants[2].aci = Some(Aci::False);
+        let mut s2 = s1.clone();
+        s2.variants[2].aci = None;
+        s2.serialize_all = Some("snake_case".into());
+        // hostile scope (prelude names re-bound) with and without case-insensitivity / default variant
+        let mut s3 = EnumSpec::base(3);
+        s3.syntax.push("hostile-scope".into());
+        let mut s4 = s3.clone();
+        s4.aci = true;
+        s4.variants[1].serialize = vec!["".into(), "é".into()];
+        let mut d = VariantSpec::unit("Dd");
+        d.default = true;
+        d.kind = Kind::Tuple(vec![FieldTy::Str]);
+        let mut s5 = s3.clone();
+        s5.variants.push(d);
+        for (sp, lab) in [(s1, "enum-level ascii_case_insensitive + v0.serialize=\"XY\" + v2.serialize=\"Xy\" (= false)"), (s2, "enum-level ascii_case_insensitive + v0.serialize=\"XY\" + v2.serialize=\"Xy\" + snake_case"), (s3, "context: scope re-binds Ok / Err / Some / None"), (s4, "context: hostile scope + enum-level ascii_case_insensitive"), (s5, "context: hostile scope + default variant")] {
+            if domain(&sp) {
+                let source = render(&sp);
+                let aux = overlap_aux(&sp);
+                out.push(Program { idx: 0, label: format!("B3 + {}", lab), k: 3, spec: sp, aux, source });
+            }
+        }
+    }
     for (mut spec, label) in scale_specs() {
         // field-less version
         for v in spec.variants.iter_mut() {
@@ -76,11 +106,20 @@ pub fn programs(tier: Tier) -> ProgramSet {
 pub fn render(spec: &EnumSpec) -> String {
     let derives = ["Debug", "Clone", "PartialEq", "strum::EnumString"];
     let mut o = String::new();
-    o.push_str(&render_enum(spec, &derives));
     let mut p = spec.clone();
     p.name = "P".into();
     p.use_phf = true;
-    o.push_str(&render_enum(&p, &derives));
+    if spec.syntax.iter().any(|x| x == "hostile-scope") {
+        // both enums live in a module whose scope re-binds the prelude's Ok / Err / Some / None (the plain derive
+        // compiles there, so the phf one has to as well)
+        o.push_str("pub mod hostile {\n    #![allow(non_snake_case, dead_code)]\n    pub fn Ok() {}\n    pub fn Err() {}\n    pub fn Some() {}\n    pub fn None() {}\n    pub struct Option;\n    pub struct Result;\n");
+        o.push_str(&render_enum(spec, &derives));
+        o.push_str(&render_enum(&p, &derives));
+        o.push_str("}\npub use hostile::{E, P};\n");
+    } else {
+        o.push_str(&render_enum(spec, &derives));
+        o.push_str(&render_enum(&p, &derives));
+    }
     o.push_str(&render_vidx(spec, "E", "vidx_e"));
     o.push_str(&render_vidx(&p, "P", "vidx_p"));
     o.push_str(
